@@ -25,11 +25,30 @@ func genC12(seed uint64) *Plan {
 	// DESIGN.md as an observation, not a violation of a listed property)
 	k["cb_sleep_pct"] = 0
 	prod := Actor{Name: "prod", Client: "w0"}
+	// in 40 % of the plans the producer is transactional: end-of-transaction
+	// markers are offsets without records, which the client acknowledges on
+	// its own ("gap" ranges) next to the application's acknowledgements
+	txn := g.pct(40)
+	if txn {
+		k["txn_prod"] = 1
+	}
+	inTxn := 0
 	for i := 0; i < int(g.rng(15, 90)); i++ {
 		prod.Ops = append(prod.Ops, Op{Kind: "produce", B: g.rng(0, nparts-1)})
+		inTxn++
+		if txn && (inTxn >= 4 || g.pct(40)) {
+			// (commits only: with the default share.isolation.level an
+			// aborted record is delivered like any other, and whether it
+			// counts as produced is not what this check is about)
+			prod.Ops = append(prod.Ops, Op{Kind: "txn_end", A: 1})
+			inTxn = 0
+		}
 		if g.pct(35) {
 			prod.Ops = append(prod.Ops, Op{Kind: "sleep", A: g.pick(1, 20, 200, 1000)})
 		}
+	}
+	if txn && inTxn > 0 {
+		prod.Ops = append(prod.Ops, Op{Kind: "txn_end", A: 1})
 	}
 	g.P.Actors = append(g.P.Actors, prod)
 	nm := int(g.rng(1, 3))
